@@ -265,8 +265,10 @@ def step(ctx, mode, tl, rec, ref, op, tag):
                       expected={"exc": sorted(c.__name__ for c in acc),
                                 "after": ok and ok[1]})
 
+    bare = getattr(rec, "bare", False)
     if tl.notifiers is not notifiers or len(tl.notifiers) != n_notifiers \
-            or tl.notifiers[-1] is not rec or tl.item_validator != val:
+            or (not bare and tl.notifiers[-1] is not rec) \
+            or tl.item_validator != val:
         bad("hooks", "notifiers/item_validator altered by the operation")
     if exc is not None:
         ctx.outcome(exc.__name__)
@@ -297,7 +299,9 @@ def step(ctx, mode, tl, rec, ref, op, tag):
     # some position (1 replaced by 1.0 is a change although 1 == 1.0)
     if typed(after) != typed(before):
         ctx.nontriv((mode, before, op))
-        if len(evs) != 1:
+        if bare:
+            pass
+        elif len(evs) != 1:
             bad("event-count", "contents changed but %d events emitted"
                 % len(evs))
         else:
@@ -452,6 +456,8 @@ def shards(tier):
             else:
                 out.append({"kind": "all", "mode": mode, "n": n})
     out.append({"kind": "patterns"})
+    for n in range(0, 4):
+        out.append({"kind": "all", "mode": "reject", "n": n, "bare": True})
     d2 = 1 if tier == "quick" else 3
     for mode in MODES:
         for n in range(d2 + 1):
@@ -477,8 +483,12 @@ class Owner(HasTraits):
         self.log.append((ev.index, list(ev.removed), list(ev.added)))
 
 
-def fresh(mode, contents):
+def fresh(mode, contents, bare=False):
     rec = Rec()
+    rec.bare = bare
+    if bare:
+        # the rejecting validator and nobody listening at all
+        return TraitList(contents, item_validator=validator(mode)), rec
     if mode == "owner":
         items = rec.extra["items"] = []
         obs = rec.extra["observer"] = []
@@ -498,14 +508,16 @@ def run_shard(ctx, shard, tier):
     kind = shard["kind"]
     if kind == "all":
         mode, n = shard["mode"], shard["n"]
+        bare = bool(shard.get("bare"))
         contents = list(range(n))
-        ctx.state((mode, contents))
-        ops = ops_for(mode, n, tier)
+        ctx.state((mode, bare, contents))
+        ops = ops_for(mode, n, tier, light=bare)
         ops = ops[shard.get("chunk", 0)::shard.get("of", 1)]
         for op in ops:
-            ctx.case({"mode": mode, "before": contents, "ops": [op]})
+            ctx.case({"mode": mode, "before": contents, "ops": [op],
+                      "bare": bare})
             ctx.ev()
-            tl, rec = fresh(mode, contents)
+            tl, rec = fresh(mode, contents, bare)
             ref = list(contents)
             step(ctx, mode, tl, rec, ref, op, "all")
             ctx.state((mode, ref))
@@ -565,7 +577,7 @@ def replay(rec):
     ctx = Ctx("C05", None, "quick", 0)
     case = rec["case"]
     mode = case["mode"]
-    tl, r = fresh(mode, case["before"])
+    tl, r = fresh(mode, case["before"], case.get("bare", False))
     ref = list(case["before"])
     for op in case["ops"]:
         op = tuple(op)
